@@ -2,7 +2,7 @@
   Property C13: the `value` / `const_value` productions (scalars, lists, objects, any nesting) run by
   the interpreter and read back by the tree builder, against the specification's `pValue`.
 -/
-import Scr.PegC13Val2
+import Scr.PegC13Float
 namespace AGV.Lemmas.PegX
 open AGV.Model.Peg AGV.Model.BuildAst AGV.Spec.Lex AGV.Spec.Parse AGV.Core.PAst AGV.Lemmas.PegC13 AGV.Lemmas.SpecVal
 
@@ -130,7 +130,7 @@ def GoodV (F : ValFam) (s₀ : List Char) (q : Nat) (t : List Char) (r : Res) : 
   match pV P' F.const (toks t) with
   | some (v, ts') =>
     ∃ s' pr, r = .ok (q + (t.length - s'.length)) s' [pr] ∧ toks s' = ts' ∧ s'.length < t.length ∧
-      (∃ mid, t = mid ++ s') ∧ pr.start = q ∧ (noFloatV v = true → Builds s₀ pr v)
+      (∃ mid, t = mid ++ s') ∧ pr.start = q ∧ (finV v = true → Builds s₀ pr v)
   | none => r = .fail
 
 theorem GoodV.fail {F s₀ q t r} (h : GoodV F s₀ q t r) (hp : pV P' F.const (toks t) = none) : r = .fail := by
@@ -138,7 +138,7 @@ theorem GoodV.fail {F s₀ q t r} (h : GoodV F s₀ q t r) (hp : pV P' F.const (
 
 theorem GoodV.ok {F s₀ q t r v ts'} (h : GoodV F s₀ q t r) (hp : pV P' F.const (toks t) = some (v, ts')) :
     ∃ s' pr, r = .ok (q + (t.length - s'.length)) s' [pr] ∧ toks s' = ts' ∧ s'.length < t.length ∧
-      (∃ mid, t = mid ++ s') ∧ pr.start = q ∧ (noFloatV v = true → Builds s₀ pr v) := by
+      (∃ mid, t = mid ++ s') ∧ pr.start = q ∧ (finV v = true → Builds s₀ pr v) := by
   unfold GoodV at h; rw [hp] at h; exact h
 
 theorem GoodV.mk_fail {F s₀ q t} (hp : pV P' F.const (toks t) = none) : GoodV F s₀ q t .fail := by
@@ -146,7 +146,7 @@ theorem GoodV.mk_fail {F s₀ q t} (hp : pV P' F.const (toks t) = none) : GoodV 
 
 theorem GoodV.mk_ok {F s₀ q t v ts' s' pr} (hp : pV P' F.const (toks t) = some (v, ts'))
     (h1 : toks s' = ts') (h2 : s'.length < t.length) (hm : ∃ mid, t = mid ++ s') (h3 : pr.start = q)
-    (h4 : noFloatV v = true → Builds s₀ pr v) :
+    (h4 : finV v = true → Builds s₀ pr v) :
     GoodV F s₀ q t (.ok (q + (t.length - s'.length)) s' [pr]) := by
   unfold GoodV; rw [hp]; exact ⟨s', pr, rfl, h1, h2, hm, h3, h4⟩
 
@@ -321,7 +321,7 @@ theorem kwTok_text {x t rest : List Char} (hx : x ∈ kwList) (h : kwTok x t = s
 theorem goodV_scalar {F : ValFam} {s₀ : List Char} {q : Nat} {t s' : List Char} {p1 : Nat} {inner : Pair} {N : Nat}
     {v : PValue} (hev : EvR G0 c0 (.ident F.vName) q t N (.ok p1 s' [Pair.mk F.vName q p1 [inner]]))
     (hp : pV P' F.const (toks t) = some (v, toks s')) (hlt : s'.length < t.length)
-    (hb : noFloatV v = true → Builds s₀ (Pair.mk F.vName q p1 [inner]) v) :
+    (hb : finV v = true → Builds s₀ (Pair.mk F.vName q p1 [inner]) v) :
     ∃ r, EvR G0 c0 (.ident F.vName) q t N r ∧ GoodV F s₀ q t r := by
   have hc := hev.consumes.len
   obtain ⟨mid, hmid, -⟩ := hev.consumes
@@ -485,7 +485,8 @@ theorem value_number_case (F : ValFam) (hF : IsFam F) (s₀ : List Char) (q : Na
     exact build_int s₀ F.vName pre.length t rest ds neg hat hln
   | float neg ip fr en ex =>
     refine goodV_scalar hev' (by rw [hts, pV_float]) hlt ?_
-    intro h; simp [noFloatV] at h
+    intro h
+    exact build_float s₀ F.vName pre.length t rest ip fr ex neg en hat hln (by simpa [finV] using h)
   | _ => simp [isNumTok] at hk
 
 theorem tok_str {t rest v : List Char} (hl : lexToken t = some (.str v, rest)) :
